@@ -376,7 +376,7 @@ pub fn build(quick: bool) -> Check {
         bounds: json!({"types": 12, "columns": 12}),
         exhaustive: true,
         caps_hit: vec![],
-        families: if quick { vec![Box::new(Matrix { tys: types() }), Box::new(ThroughRows), Box::new(super::aftermath::Aftermath { prop: "C15" })] } else { vec![Box::new(Matrix { tys: types() }), Box::new(ThroughRows), Box::new(Exhaustive32), Box::new(super::aftermath::Aftermath { prop: "C15" })] },
-        required: vec!["aftermath_recovered", "accepted", "refused", "rows_accepted", "rows_refused"],
+        families: if quick { vec![Box::new(Matrix { tys: types() }), Box::new(ThroughRows), Box::new(super::c07::MixedRows), Box::new(super::aftermath::Aftermath { prop: "C15" })] } else { vec![Box::new(Matrix { tys: types() }), Box::new(ThroughRows), Box::new(Exhaustive32), Box::new(super::c07::MixedRows), Box::new(super::aftermath::Aftermath { prop: "C15" })] },
+        required: vec!["mixed_rows", "aftermath_recovered", "accepted", "refused", "rows_accepted", "rows_refused"],
     }
 }
